@@ -1047,6 +1047,11 @@ def run_history(case, st, hist, res, count=True, keep_going=False):
             inner_edit = kind == 'mod_header' and op['h'] in g.only_through_pch(cur)
             stale_dep_gone = kind in ('del_header', 'rename_header', 'move_header')
             try:
+                if kind == 'break_header' and not [m for m in must if m != 'pch']:
+                    # (no translation unit reaches this header: nothing has to fail)
+                    rc, out, recs = do_build()
+                    cur, rendered = nxt, new_render
+                    continue
                 if kind in ('break_tu', 'break_header'):
                     # this build has to fail (the TU / the header does not compile); nothing
                     # else is asked
